@@ -4,7 +4,7 @@ EXPLANATION = ("The real tracer (NewTracer, run, SubscribeChannel, Unsubscribe, 
                "that join, take a solver-chosen number of traces and leave at arbitrary points of every interleaving.")
 ASSUMPTIONS = ["documented usage: a subscriber keeps reading its channel until it has unsubscribed (Unsubscribe itself drains)",
                "the causality grammar of engine traces (visit before leave, FlowTrace before the new flows' first trace) is not decided here; it follows from the flow loop's program order (C01/C04 scenarios) composed with the per-sender FIFO result of this check",
-               "termination of the tracer after cancellation (delivery of traces sent by registered senders after the cancel, closing of subscriber channels, Done) is NOT decided: after cancellation tracer.run re-takes the closed Done channel in a busy loop until the last sender reports Done, and the two scenarios written for it (harness functions VerifC09_CancelDrain, VerifC09_SendAfterCancel) did not close within 30 minutes",
+               "termination of the tracer after cancellation is decided for one registered sender (C09.b scenarios); a sender that never reports Done keeps the tracer alive by design",
                "bounds: up to 3 senders and 4 traces in total, up to 2 joining/leaving subscribers, buffers 0..2 (the property's 1..8 senders / 1..4 subscribers are covered only to these sizes)"]
 H = "tracing"
 EO = ["every Send returns (no deadlock while the remaining subscribers keep consuming)",
@@ -36,4 +36,9 @@ SCENARIOS = [
     sc("VerifC09_S2x2_U1_B1", "C09.a 2 senders x2, 1 subscriber", "2 senders x 2 traces, buffer 1, take 0..3", tiers=("thorough",), K=140),
     sc("VerifC09_S2x1_U2_B1", "C09.a 2 senders x1, 2 subscribers", "2 senders x 1 trace, 2 joining/leaving subscribers", tiers=("thorough",), K=140),
     sc("VerifC09_S3x1_U1_B2", "C09.a 3 senders x1, 1 subscriber", "3 senders x 1 trace, buffer 2, take 0..3", tiers=("thorough",), K=140),
+    sc("VerifC09_SendAfterCancel", "C09.b cancel, then a registered sender sends and reports Done", "context cancelled first; 1 registered sender x 1 trace, reference subscriber (buffer 4)", K=60,
+       eo=["every Send returns (no deadlock while the remaining subscribers keep consuming)", "traces sent by a registered sender before it reports Done are delivered even after cancellation"]),
+    sc("VerifC09_CancelDrain", "C09.b cancel at any point while a registered sender sends 2 and reports Done", "1 registered sender x 2 traces, cancel from another goroutine at every point, reference subscriber (buffer 8)", K=90,
+       eo=["every Send returns (no deadlock while the remaining subscribers keep consuming)", "traces sent by a registered sender before it reports Done are delivered even after cancellation",
+           "after cancellation and the last sender's Done the subscriber channel is closed", "after cancellation and the last sender's Done the tracer is done"]),
 ]
